@@ -82,7 +82,7 @@ def shrink_and_report(prop, scratch, by_id, fails, mode="hist", harness_env=None
         sname, h = by_id[hid]
 
         def still(lines, sig=sig):
-            res, _ = vlib.run_hist(scratch, lines, name="shrink", mode=mode, harness_env=harness_env, timeout=120)
+            res, _ = vlib.run_hist(scratch, lines, name="shrink", mode=mode, harness_env=harness_env, timeout=20)
             rr = list(res.values())[0] if res else None
             if not rr or rr["status"] == "OK":
                 return False
